@@ -489,6 +489,7 @@ impl BsUnit {
                 while p > 0
                     && let Some(next_place) = self.find_place_by_idx(p - 1)
                     && u64::from(next_place.address) == pc
+                    && !next_place.end_sequence
                 {
                     place = Some(next_place);
                     p -= 1;
